@@ -222,6 +222,11 @@ def pmap(fn: Callable, items: Iterable, jobs: int, chunksize: int = 1):
         return out
     global _POOL
     if _POOL is None:
+        # keep the parent's heap out of the children's generation-2 collections (and un-shared pages)
+        import gc
+
+        gc.collect()
+        gc.freeze()
         ctx = mp.get_context('fork')
         _POOL = ctx.Pool(jobs, initializer=_worker_init)
     out = []
